@@ -1513,7 +1513,7 @@ theorem locs_update (c u : Cfg) : ∀ x ∈ (c.update u).locs, x ∈ c.locs ∨ 
 
 /-- appending an entry all of whose dict objects are new keeps the invariant -/
 theorem cinv_append (w : CWorld) (hw : CInv w) (c : Cfg) (n' : Nat) (hn : w.next ≤ n')
-    (hc : ∀ x ∈ c.locs, w.next ≤ x ∧ x < n') : CInv { next := n', cfgs := w.cfgs ++ [c] } := by
+    (hc : ∀ x ∈ c.locs, w.next ≤ x ∧ x < n') : CInv { w with next := n', cfgs := w.cfgs ++ [c] } := by
   constructor
   · show (w.cfgs ++ [c]).Pairwise Disj
     rw [List.pairwise_append]
@@ -1533,15 +1533,49 @@ theorem cinv_append (w : CWorld) (hw : CInv w) (c : Cfg) (n' : Nat) (hn : w.next
       subst this
       exact (hc l hl).2
 
+/-- `sys.path` is not part of the invariant -/
+theorem cinv_syspath (w : CWorld) (hw : CInv w) (sp : List Nat) : CInv { w with syspath := sp } :=
+  ⟨hw.disj, hw.lt⟩
+
+/-- a deletion through a container that a configuration does not hold leaves it unchanged -/
+theorem delLoc_of_not_mem (l k : Nat) (c : Cfg) (h : l ∉ c.locs) : c.delLoc l k = c := by
+  unfold Cfg.delLoc
+  have : c.dicts.filter (fun d => d.2 = l) = [] := by
+    rw [List.filter_eq_nil_iff]
+    intro d hd hdl
+    apply h
+    exact List.mem_map.mpr ⟨d, hd, by simpa using hdl⟩
+  rw [this]; rfl
+
+theorem locs_removeUnder (c : Cfg) (q : List Nat) : ∀ x ∈ (c.removeUnder q).locs, x ∈ c.locs := by
+  intro x hx
+  unfold Cfg.locs Cfg.removeUnder at *
+  obtain ⟨d, hd, rfl⟩ := List.mem_map.mp hx
+  exact List.mem_map.mpr ⟨d, (List.mem_filter.mp hd).1, rfl⟩
+
+/-- a deletion never creates container objects -/
+theorem locs_delLoc (l k : Nat) (c : Cfg) : ∀ x ∈ (c.delLoc l k).locs, x ∈ c.locs := by
+  unfold Cfg.delLoc
+  generalize c.dicts.filter (fun d => d.2 = l) = ds
+  suffices H : ∀ (ds : List (List Nat × Nat)) (acc : Cfg), (∀ x ∈ acc.locs, x ∈ c.locs) →
+      ∀ x ∈ (ds.foldl (fun acc d => acc.removeUnder (d.1 ++ [k])) acc).locs, x ∈ c.locs from
+    H ds c (fun x hx => hx)
+  intro ds
+  induction ds with
+  | nil => intro acc h; exact h
+  | cons d t ih =>
+    intro acc h
+    exact ih _ (fun x hx => h x (locs_removeUnder acc _ x hx))
+
 end C20
 
 namespace C20
 
-/-- under the invariant, "apply the write to every holder of the dict object" is "apply it to the
-configuration it was made through" -/
-theorem map_writeLoc_eq_set (cs : List Cfg) (h : cs.Pairwise Disj) (j : Nat) (c : Cfg)
-    (hj : cs[j]? = some c) (l k v : Nat) (hl : l ∈ c.locs) :
-    cs.map (Cfg.writeLoc l k v) = cs.set j (c.writeLoc l k v) := by
+/-- under the invariant, "apply the in-place effect to every holder of the container object" is
+"apply it to the configuration it was made through" -/
+theorem map_eff_eq_set (eff : Cfg → Cfg) (l : Nat) (heff : ∀ a : Cfg, l ∉ a.locs → eff a = a)
+    (cs : List Cfg) (h : cs.Pairwise Disj) (j : Nat) (c : Cfg)
+    (hj : cs[j]? = some c) (hl : l ∈ c.locs) : cs.map eff = cs.set j (eff c) := by
   apply List.ext_getElem?
   intro i
   rw [List.getElem?_map, List.getElem?_set]
@@ -1554,18 +1588,17 @@ theorem map_writeLoc_eq_set (cs : List Cfg) (h : cs.Pairwise Disj) (j : Nat) (c 
     | none => rfl
     | some a =>
       have : l ∉ a.locs := disj_of_pairwise cs h j i c a hj ha hij l hl
-      simp [writeLoc_of_not_mem l k v a this]
+      simp [heff a this]
 
-theorem cinv_map_writeLoc (w : CWorld) (hw : CInv w) (l k v : Nat) :
-    CInv { w with cfgs := w.cfgs.map (Cfg.writeLoc l k v) } := by
+theorem cinv_map_eff (eff : Cfg → Cfg) (hsub : ∀ (a : Cfg) (x : Nat), x ∈ (eff a).locs → x ∈ a.locs)
+    (w : CWorld) (hw : CInv w) : CInv { w with cfgs := w.cfgs.map eff } := by
   constructor
   · show (w.cfgs.map _).Pairwise Disj
     rw [List.pairwise_map]
-    exact hw.disj.imp (fun {a b} hab x hxa hxb =>
-      hab x (locs_writeLoc l k v a x hxa) (locs_writeLoc l k v b x hxb))
+    exact hw.disj.imp (fun {a b} hab x hxa hxb => hab x (hsub a x hxa) (hsub b x hxb))
   · intro a ha x hx
     obtain ⟨a', ha', rfl⟩ := List.mem_map.mp ha
-    exact hw.lt a' ha' x (locs_writeLoc l k v a' x hx)
+    exact hw.lt a' ha' x (hsub a' x hx)
 
 theorem cstep_isolated (w : CWorld) (hw : CInv w) (op : COp) :
     cstep w op = cspecStep w op ∧ CInv (cstep w op).1 := by
@@ -1599,18 +1632,121 @@ theorem cstep_isolated (w : CWorld) (hw : CInv w) (op : COp) :
       | error e => simp only [cstep, cspecStep, hj, hn]; exact ⟨trivial, hw⟩
       | ok l =>
         have hl := navigate_mem c path l hn
-        simp only [cstep, cspecStep, hj, hn, map_writeLoc_eq_set w.cfgs hw.disj j c hj l k v hl]
+        have hm := map_eff_eq_set (Cfg.writeLoc l k v) l (writeLoc_of_not_mem l k v) w.cfgs hw.disj j c hj hl
+        simp only [cstep, cspecStep, hj, hn, hm]
         refine ⟨trivial, ?_⟩
-        have := cinv_map_writeLoc w hw l k v
-        rw [map_writeLoc_eq_set w.cfgs hw.disj j c hj l k v hl] at this
+        have := cinv_map_eff (Cfg.writeLoc l k v) (locs_writeLoc l k v) w hw
+        rw [hm] at this
         exact this
+  | del j path k =>
+    cases hj : w.cfgs[j]? with
+    | none => simp only [cstep, cspecStep, hj]; exact ⟨trivial, hw⟩
+    | some c =>
+      cases hn : navigate c path with
+      | error e => simp only [cstep, cspecStep, hj, hn]; exact ⟨trivial, hw⟩
+      | ok l =>
+        cases hk : c.lookup (path ++ [k]) with
+        | none => simp only [cstep, cspecStep, hj, hn, hk]; exact ⟨trivial, hw⟩
+        | some r =>
+          have hl := navigate_mem c path l hn
+          have hm := map_eff_eq_set (Cfg.delLoc l k) l (delLoc_of_not_mem l k) w.cfgs hw.disj j c hj hl
+          simp only [cstep, cspecStep, hj, hn, hk, hm]
+          refine ⟨trivial, ?_⟩
+          have := cinv_map_eff (Cfg.delLoc l k) (locs_delLoc l k) w hw
+          rw [hm] at this
+          exact this
+  | get j path k =>
+    refine ⟨rfl, ?_⟩
+    cases hj : w.cfgs[j]? with
+    | none => simp only [cstep, hj]; exact hw
+    | some c => simp only [cstep, hj]; exact hw
+
+/-- a straight-line method body behaves on the world with identities as on independent configurations -/
+theorem runScript_isolated (sc : List (Option COp)) : ∀ w : CWorld, CInv w →
+    runScript cstep w sc = runScript cspecStep w sc ∧ CInv (runScript cstep w sc).1 := by
+  induction sc with
+  | nil => intro w hw; exact ⟨rfl, hw⟩
+  | cons o t ih =>
+    intro w hw
+    cases o with
+    | none => exact ⟨rfl, hw⟩
+    | some op =>
+      have h := cstep_isolated w hw op
+      simp only [runScript]
+      rw [← h.1]
+      cases hres : cstep w op with
+      | mk w' r =>
+        rw [hres] at h
+        cases r with
+        | ok _ => exact ih w' h.2
+        | error e => exact ⟨rfl, h.2⟩
+
+/-- every method of `Config` behaves on the world with identities as on independent configurations -/
+theorem cmethod_isolated (K : Keys) (E : Ext) (w : CWorld) (hw : CInv w) (j : Nat) (m : Method) :
+    cmethod cstep K E w j m = cmethod cspecStep K E w j m ∧ CInv (cmethod cstep K E w j m).1 := by
+  cases m with
+  | enableTracing => exact runScript_isolated _ w hw
+  | disableTracing => exact runScript_isolated _ w hw
+  | setEnableTracing flag => exact runScript_isolated _ w hw
+  | setNcpu v => exact runScript_isolated _ w hw
+  | setInternalUnits a e l t => exact runScript_isolated _ w hw
+  | setWd path =>
+    cases hj : w.cfgs[j]? with
+    | none => simp only [cmethod, hj]; exact ⟨trivial, hw⟩
+    | some c =>
+      cases hg : cget c [K.project] K.workingDirectory with
+      | error e => simp only [cmethod, hj, hg]; exact ⟨trivial, hw⟩
+      | ok cur =>
+        simp only [cmethod, hj, hg]
+        have hw1 : CInv { w with syspath := sysRemove cur w.syspath } := cinv_syspath w hw _
+        cases ha : onVal (match path with | some p => CRes.val p | none => cur) E.abspath with
+        | error e => simp only []; exact ⟨trivial, hw1⟩
+        | ok r =>
+          cases r with
+          | unit => simp only []; exact ⟨trivial, hw1⟩
+          | cont => simp only []; exact ⟨trivial, hw1⟩
+          | val wd =>
+            simp only []
+            have h := cstep_isolated _ hw1 (.set j [K.project] K.workingDirectory wd)
+            rw [← h.1]
+            cases hres : cstep { w with syspath := sysRemove cur w.syspath }
+                (.set j [K.project] K.workingDirectory wd) with
+            | mk w2 r2 =>
+              rw [hres] at h
+              cases r2 with
+              | ok _ => exact ⟨rfl, cinv_syspath w2 h.2 _⟩
+              | error e => exact ⟨rfl, h.2⟩
+  | isTracingEnabled =>
+    cases hj : w.cfgs[j]? <;> simp only [cmethod, hj] <;> exact ⟨trivial, hw⟩
+  | getWd =>
+    cases hj : w.cfgs[j]? with
+    | none => simp only [cmethod, hj]; exact ⟨trivial, hw⟩
+    | some c => simp only [cmethod, hj]; split <;> exact ⟨trivial, hw⟩
+  | toInternalTimeUnit u =>
+    cases hj : w.cfgs[j]? with
+    | none => simp only [cmethod, hj]; exact ⟨trivial, hw⟩
+    | some c => simp only [cmethod, hj]; split <;> exact ⟨trivial, hw⟩
+  | wdFilename f =>
+    cases hj : w.cfgs[j]? with
+    | none => simp only [cmethod, hj]; exact ⟨trivial, hw⟩
+    | some c =>
+      simp only [cmethod, hj]
+      split
+      · exact ⟨trivial, hw⟩
+      · split <;> exact ⟨trivial, hw⟩
+
+theorem ccall_isolated (K : Keys) (E : Ext) (w : CWorld) (hw : CInv w) (c : CCall) :
+    ccall cstep K E w c = ccall cspecStep K E w c ∧ CInv (ccall cstep K E w c).1 := by
+  cases c with
+  | op o => exact cstep_isolated w hw o
+  | meth j m => exact cmethod_isolated K E w hw j m
 
 end C20
 
 /-- **configuration isolation**: in a world where the base configuration, the user dictionaries
-and the existing Config instances share no dict object, any sequence of `Config()`,
-`Config.from_dict(u)` and writes `cfg[p1]..[pn][k] = v` behaves as if every write changed only the
-configuration it was made through — and the world stays such a world. -/
+and the existing Config instances share no container object, any sequence of `Config()`,
+`Config.from_dict(u)`, item writes `cfg[p1]..[pn][k] = v`, deletions and reads behaves as if every
+write changed only the configuration it was made through — and the world stays such a world. -/
 theorem c20_config_isolated (ops : List COp) : ∀ w : CWorld, C20.CInv w →
     crun cstep w ops = crun cspecStep w ops ∧ C20.CInv (crun cstep w ops) := by
   induction ops with
@@ -1622,23 +1758,42 @@ theorem c20_config_isolated (ops : List COp) : ∀ w : CWorld, C20.CInv w →
     rw [← h.1]
     exact ih _ h.2
 
-/-- a write through configuration `j` leaves every other entry of the world (other Config
-instances, `_BASECONFIG`, user dictionaries) exactly as it was -/
+/-- **every mutator**: the same for sequences that also call the methods of `Config`
+(`enable_tracing`, `disable_tracing`, `set_enable_tracing`, `set_ncpu`, `set_internal_units` with its
+`TypeError` after partial writes, `set_wd` with its `sys.path` handling, and the queries), whatever
+the key codes and the external functions (`os.path.abspath`, `os.path.join`, unit conversion) are. -/
+theorem c20_config_calls_isolated (K : Keys) (E : Ext) (calls : List CCall) : ∀ w : CWorld, C20.CInv w →
+    crunCalls cstep K E w calls = crunCalls cspecStep K E w calls ∧ C20.CInv (crunCalls cstep K E w calls) := by
+  induction calls with
+  | nil => intro w hw; exact ⟨rfl, hw⟩
+  | cons c cs ih =>
+    intro w hw
+    have h := C20.ccall_isolated K E w hw c
+    show crunCalls cstep K E (ccall cstep K E w c).1 cs = crunCalls cspecStep K E (ccall cspecStep K E w c).1 cs ∧ _
+    rw [← h.1]
+    exact ih _ h.2
+
+/-- a write or deletion through configuration `j` leaves every other entry of the world (other
+Config instances, `_BASECONFIG`, user dictionaries) exactly as it was -/
 theorem c20_config_write_local (w : CWorld) (hw : C20.CInv w) (j i : Nat) (path : List Nat) (k v : Nat)
-    (hij : i ≠ j) : (cstep w (.set j path k v)).1.cfgs[i]? = w.cfgs[i]? := by
-  rw [(C20.cstep_isolated w hw _).1]
+    (hij : i ≠ j) : (cstep w (.set j path k v)).1.cfgs[i]? = w.cfgs[i]? ∧
+      (cstep w (.del j path k)).1.cfgs[i]? = w.cfgs[i]? := by
+  rw [(C20.cstep_isolated w hw _).1, (C20.cstep_isolated w hw _).1]
   cases hj : w.cfgs[j]? with
-  | none => simp only [cspecStep, hj]
+  | none => simp only [cspecStep, hj]; exact ⟨trivial, trivial⟩
   | some c =>
     cases hn : navigate c path with
-    | error e => simp only [cspecStep, hj, hn]
+    | error e => simp only [cspecStep, hj, hn]; exact ⟨trivial, trivial⟩
     | ok l =>
       simp only [cspecStep, hj, hn]
-      exact List.getElem?_set_ne (fun e => hij e.symm)
+      refine ⟨List.getElem?_set_ne (fun e => hij e.symm), ?_⟩
+      cases hk : c.lookup (path ++ [k]) with
+      | none => rfl
+      | some r => exact List.getElem?_set_ne (fun e => hij e.symm)
 
 /-- a new `Config()` has the content of the base configuration and only new dict objects -/
 theorem c20_config_new_fresh (w : CWorld) (base : Cfg) (hb : w.cfgs[0]? = some base) :
-    ∃ c n, cstep w .new = ({ next := n, cfgs := w.cfgs ++ [c] }, .ok ()) ∧ c.leaves = base.leaves ∧
+    ∃ c n, cstep w .new = ({ w with next := n, cfgs := w.cfgs ++ [c] }, .ok .unit) ∧ c.leaves = base.leaves ∧
       c.dicts.map Prod.fst = base.dicts.map Prod.fst ∧ ∀ l ∈ c.locs, w.next ≤ l := by
   refine ⟨base.deepCopy w.next, w.next + base.dicts.length, ?_, rfl, ?_, ?_⟩
   · simp only [cstep, newCfg, hb]
@@ -1669,3 +1824,414 @@ example :
     (cstep w (.set 2 [1] 5 9)).1.cfgs[1]? = w.cfgs[1]? ∧
     (cstep w (.set 2 [1] 5 9)).1.cfgs[2]? ≠ w.cfgs[2]? := by
   decide
+
+/-! ### behavioural isolation: what is observed through one configuration depends on the calls made
+through that configuration only -/
+
+namespace C20
+
+/-- the configuration a call goes through (`none` for the creation of a new one) -/
+def callTarget : CCall → Option Nat
+  | .op .new => none
+  | .op (.fromDict _) => none
+  | .op (.set j _ _ _) => some j
+  | .op (.del j _ _) => some j
+  | .op (.get j _ _) => some j
+  | .meth j _ => some j
+
+/-- the results (return values and raised errors) of the calls made through configuration `j` -/
+def resultsOn (K : Keys) (E : Ext) (j : Nat) : CWorld → List CCall → List (Except CErr CRes)
+  | _, [] => []
+  | w, c :: cs =>
+    if callTarget c = some j then (ccall cstep K E w c).2 :: resultsOn K E j (ccall cstep K E w c).1 cs
+    else resultsOn K E j (ccall cstep K E w c).1 cs
+
+/-- an item write / deletion / read through `i` on independent configurations: only entry `i` can change -/
+theorem spec_op_other (w : CWorld) (i j : Nat) (hij : i ≠ j) (op : COp)
+    (hop : callTarget (.op op) = some i) :
+    (cspecStep w op).1.cfgs[j]? = w.cfgs[j]? ∧ (cspecStep w op).1.cfgs.length = w.cfgs.length := by
+  cases op with
+  | new => simp [callTarget] at hop
+  | fromDict u => simp [callTarget] at hop
+  | set i' path k v =>
+    have : i' = i := by simpa [callTarget] using hop
+    subst this
+    cases hc : w.cfgs[i']? with
+    | none => simp [cspecStep, hc]
+    | some c =>
+      cases hn : navigate c path with
+      | error e => simp [cspecStep, hc, hn]
+      | ok l => simp [cspecStep, hc, hn, List.getElem?_set_ne hij]
+  | del i' path k =>
+    have : i' = i := by simpa [callTarget] using hop
+    subst this
+    cases hc : w.cfgs[i']? with
+    | none => simp [cspecStep, hc]
+    | some c =>
+      cases hn : navigate c path with
+      | error e => simp [cspecStep, hc, hn]
+      | ok l =>
+        cases hk : c.lookup (path ++ [k]) with
+        | none => simp [cspecStep, hc, hn, hk]
+        | some r => simp [cspecStep, hc, hn, hk, List.getElem?_set_ne hij]
+  | get i' path k =>
+    cases hc : w.cfgs[i']? <;> simp [cspecStep, cstep, hc]
+
+/-- … and what happens to entry `j` and what is returned depends on entry `j` only -/
+theorem spec_op_local (w1 w2 : CWorld) (j : Nat) (heq : w1.cfgs[j]? = w2.cfgs[j]?) (op : COp)
+    (hop : callTarget (.op op) = some j) :
+    (cspecStep w1 op).2 = (cspecStep w2 op).2 ∧ (cspecStep w1 op).1.cfgs[j]? = (cspecStep w2 op).1.cfgs[j]? := by
+  have hlen : ∀ (w : CWorld) (c : Cfg), w.cfgs[j]? = some c → j < w.cfgs.length := fun w c h =>
+    (List.getElem?_eq_some_iff.mp h).1
+  cases op with
+  | new => simp [callTarget] at hop
+  | fromDict u => simp [callTarget] at hop
+  | set j' path k v =>
+    have : j' = j := by simpa [callTarget] using hop
+    subst this
+    cases hc : w1.cfgs[j']? with
+    | none => have hc2 := heq ▸ hc; simp [cspecStep, hc, hc2]
+    | some c =>
+      have hc2 : w2.cfgs[j']? = some c := heq ▸ hc
+      cases hn : navigate c path with
+      | error e => simp [cspecStep, hc, hc2, hn]
+      | ok l => simp [cspecStep, hc, hc2, hn, List.getElem?_set_self (hlen _ _ hc), List.getElem?_set_self (hlen _ _ hc2)]
+  | del j' path k =>
+    have : j' = j := by simpa [callTarget] using hop
+    subst this
+    cases hc : w1.cfgs[j']? with
+    | none => have hc2 := heq ▸ hc; simp [cspecStep, hc, hc2]
+    | some c =>
+      have hc2 : w2.cfgs[j']? = some c := heq ▸ hc
+      cases hn : navigate c path with
+      | error e => simp [cspecStep, hc, hc2, hn]
+      | ok l =>
+        cases hk : c.lookup (path ++ [k]) with
+        | none => simp [cspecStep, hc, hc2, hn, hk]
+        | some r =>
+          simp [cspecStep, hc, hc2, hn, hk, List.getElem?_set_self (hlen _ _ hc), List.getElem?_set_self (hlen _ _ hc2)]
+  | get j' path k =>
+    have : j' = j := by simpa [callTarget] using hop
+    subst this
+    cases hc : w1.cfgs[j']? with
+    | none => have hc2 := heq ▸ hc; simp [cspecStep, cstep, hc, hc2]
+    | some c => have hc2 : w2.cfgs[j']? = some c := heq ▸ hc; simp [cspecStep, cstep, hc, hc2]
+
+/-- a script all of whose writes go through configuration `i` -/
+def ScriptThrough (i : Nat) (sc : List (Option COp)) : Prop :=
+  ∀ op, some op ∈ sc → callTarget (.op op) = some i
+
+theorem runScript_spec_other (i j : Nat) (hij : i ≠ j) (sc : List (Option COp)) : ∀ w : CWorld,
+    ScriptThrough i sc →
+    (runScript cspecStep w sc).1.cfgs[j]? = w.cfgs[j]? ∧ (runScript cspecStep w sc).1.cfgs.length = w.cfgs.length := by
+  induction sc with
+  | nil => intro w _; exact ⟨rfl, rfl⟩
+  | cons o t ih =>
+    intro w hs
+    cases o with
+    | none => exact ⟨rfl, rfl⟩
+    | some op =>
+      have h1 := spec_op_other w i j hij op (hs op (by simp))
+      simp only [runScript]
+      cases hres : cspecStep w op with
+      | mk w' r =>
+        rw [hres] at h1
+        cases r with
+        | ok _ =>
+          have h2 := ih w' (fun op' h' => hs op' (List.mem_cons_of_mem _ h'))
+          exact ⟨h2.1.trans h1.1, h2.2.trans h1.2⟩
+        | error e => exact h1
+
+theorem runScript_spec_local (j : Nat) (sc : List (Option COp)) : ∀ w1 w2 : CWorld,
+    w1.cfgs[j]? = w2.cfgs[j]? → ScriptThrough j sc →
+    (runScript cspecStep w1 sc).2 = (runScript cspecStep w2 sc).2 ∧
+    (runScript cspecStep w1 sc).1.cfgs[j]? = (runScript cspecStep w2 sc).1.cfgs[j]? := by
+  induction sc with
+  | nil => intro w1 w2 heq _; exact ⟨rfl, heq⟩
+  | cons o t ih =>
+    intro w1 w2 heq hs
+    cases o with
+    | none => exact ⟨rfl, heq⟩
+    | some op =>
+      have h1 := spec_op_local w1 w2 j heq op (hs op (by simp))
+      simp only [runScript]
+      cases hr1 : cspecStep w1 op with
+      | mk w1' r1 =>
+        cases hr2 : cspecStep w2 op with
+        | mk w2' r2 =>
+          rw [hr1, hr2] at h1
+          simp only at h1
+          obtain ⟨hr, hc⟩ := h1
+          subst hr
+          cases r1 with
+          | ok _ => exact ih w1' w2' hc (fun op' h' => hs op' (List.mem_cons_of_mem _ h'))
+          | error e => exact ⟨rfl, hc⟩
+
+theorem unitLine_through (K : Keys) (j : Nat) (a : UnitArg) (key : Nat) : ScriptThrough j (unitLine K j a key) := by
+  intro op h
+  cases a <;> simp [unitLine] at h
+  subst h; rfl
+
+theorem scriptThrough_append (i : Nat) (s1 s2 : List (Option COp)) (h1 : ScriptThrough i s1)
+    (h2 : ScriptThrough i s2) : ScriptThrough i (s1 ++ s2) := by
+  intro op h
+  rcases List.mem_append.mp h with h | h
+  · exact h1 op h
+  · exact h2 op h
+
+/-- the straight-line body of a method through `i`, if it has one -/
+def methodScript (K : Keys) (E : Ext) (i : Nat) : Method → Option (List (Option COp))
+  | .enableTracing => some [some (.set i [K.debugging] K.enableTracing E.vTrue)]
+  | .disableTracing => some [some (.set i [K.debugging] K.enableTracing E.vFalse)]
+  | .setEnableTracing flag => some [some (.set i [K.debugging] K.enableTracing flag)]
+  | .setNcpu v => some [some (.set i [K.multiproc] K.ncpu v)]
+  | .setInternalUnits a e l t => some (unitLine K i a K.angle ++ unitLine K i e K.energy ++
+      unitLine K i l K.length ++ unitLine K i t K.time)
+  | _ => none
+
+theorem methodScript_through (K : Keys) (E : Ext) (i : Nat) (m : Method) (sc : List (Option COp))
+    (h : methodScript K E i m = some sc) : ScriptThrough i sc := by
+  cases m <;> simp only [methodScript, Option.some.injEq, reduceCtorEq] at h
+  all_goals (try (subst h; intro op hop; simp at hop; subst hop; rfl))
+  subst h
+  exact scriptThrough_append _ _ _ (scriptThrough_append _ _ _ (scriptThrough_append _ _ _
+    (unitLine_through K i _ _) (unitLine_through K i _ _)) (unitLine_through K i _ _)) (unitLine_through K i _ _)
+
+theorem cmethod_script (stepf : CWorld → COp → CWorld × Except CErr CRes) (K : Keys) (E : Ext) (w : CWorld)
+    (i : Nat) (m : Method) (sc : List (Option COp)) (h : methodScript K E i m = some sc) :
+    cmethod stepf K E w i m = runScript stepf w sc := by
+  cases m <;> simp only [methodScript, Option.some.injEq, reduceCtorEq] at h <;> subst h <;> rfl
+
+/-- a method called through `i` leaves every other configuration as it was -/
+theorem spec_method_other (K : Keys) (E : Ext) (w : CWorld) (i j : Nat) (hij : i ≠ j) (m : Method) :
+    (cmethod cspecStep K E w i m).1.cfgs[j]? = w.cfgs[j]? ∧
+    (cmethod cspecStep K E w i m).1.cfgs.length = w.cfgs.length := by
+  cases hs : methodScript K E i m with
+  | some sc =>
+    rw [cmethod_script cspecStep K E w i m sc hs]
+    exact runScript_spec_other i j hij sc w (methodScript_through K E i m sc hs)
+  | none =>
+    cases m with
+    | setWd path =>
+      cases hc : w.cfgs[i]? with
+      | none => simp [cmethod, hc]
+      | some c =>
+        cases hg : cget c [K.project] K.workingDirectory with
+        | error e => simp [cmethod, hc, hg]
+        | ok cur =>
+          simp only [cmethod, hc, hg]
+          have h1 := fun wd => spec_op_other { w with syspath := sysRemove cur w.syspath } i j hij
+            (.set i [K.project] K.workingDirectory wd) rfl
+          split
+          · exact ⟨rfl, rfl⟩
+          · rename_i wd _
+            have h1 := h1 wd
+            split
+            · rename_i w2 a hres; rw [hres] at h1; exact h1
+            · rename_i w2 e hres; rw [hres] at h1; exact h1
+          · exact ⟨rfl, rfl⟩
+    | isTracingEnabled => cases hc : w.cfgs[i]? <;> simp [cmethod, hc]
+    | getWd =>
+      cases hc : w.cfgs[i]? with
+      | none => simp [cmethod, hc]
+      | some c => simp only [cmethod, hc]; split <;> exact ⟨rfl, rfl⟩
+    | toInternalTimeUnit u =>
+      cases hc : w.cfgs[i]? with
+      | none => simp [cmethod, hc]
+      | some c => simp only [cmethod, hc]; split <;> exact ⟨rfl, rfl⟩
+    | wdFilename f =>
+      cases hc : w.cfgs[i]? with
+      | none => simp [cmethod, hc]
+      | some c =>
+        simp only [cmethod, hc]
+        split
+        · exact ⟨rfl, rfl⟩
+        · split <;> exact ⟨rfl, rfl⟩
+    | enableTracing => simp [methodScript] at hs
+    | disableTracing => simp [methodScript] at hs
+    | setEnableTracing flag => simp [methodScript] at hs
+    | setNcpu v => simp [methodScript] at hs
+    | setInternalUnits a e l t => simp [methodScript] at hs
+
+/-- what a method called through `j` returns and does to configuration `j` depends on
+configuration `j` only (not on other configurations, not on `sys.path`) -/
+theorem spec_method_local (K : Keys) (E : Ext) (w1 w2 : CWorld) (j : Nat) (heq : w1.cfgs[j]? = w2.cfgs[j]?)
+    (m : Method) :
+    (cmethod cspecStep K E w1 j m).2 = (cmethod cspecStep K E w2 j m).2 ∧
+    (cmethod cspecStep K E w1 j m).1.cfgs[j]? = (cmethod cspecStep K E w2 j m).1.cfgs[j]? := by
+  cases hs : methodScript K E j m with
+  | some sc =>
+    rw [cmethod_script cspecStep K E w1 j m sc hs, cmethod_script cspecStep K E w2 j m sc hs]
+    exact runScript_spec_local j sc w1 w2 heq (methodScript_through K E j m sc hs)
+  | none =>
+    cases hc : w1.cfgs[j]? with
+    | none =>
+      have hc2 : w2.cfgs[j]? = none := heq ▸ hc
+      cases m <;> first | (simp [methodScript] at hs; done) | simp [cmethod, hc, hc2]
+    | some c =>
+      have hc2 : w2.cfgs[j]? = some c := heq ▸ hc
+      cases m with
+      | setWd path =>
+        cases hg : cget c [K.project] K.workingDirectory with
+        | error e => simp [cmethod, hc, hc2, hg]
+        | ok cur =>
+          simp only [cmethod, hc, hc2, hg]
+          have h1 := fun wd => spec_op_local { w1 with syspath := sysRemove cur w1.syspath }
+            { w2 with syspath := sysRemove cur w2.syspath } j (by simp [hc, hc2])
+            (.set j [K.project] K.workingDirectory wd) rfl
+          split
+          · exact ⟨rfl, by simp [hc, hc2]⟩
+          · rename_i wd _
+            have h1 := h1 wd
+            cases hr1 : cspecStep { w1 with syspath := sysRemove cur w1.syspath }
+                (.set j [K.project] K.workingDirectory wd) with
+            | mk a1 r1 =>
+              cases hr2 : cspecStep { w2 with syspath := sysRemove cur w2.syspath }
+                  (.set j [K.project] K.workingDirectory wd) with
+              | mk a2 r2 =>
+                rw [hr1, hr2] at h1
+                simp only at h1
+                obtain ⟨hr, hcf⟩ := h1
+                subst hr
+                cases r1 <;> exact ⟨rfl, hcf⟩
+          · exact ⟨rfl, by simp [hc, hc2]⟩
+      | isTracingEnabled => simp [cmethod, hc, hc2]
+      | getWd => simp only [cmethod, hc, hc2]; split <;> simp [hc, hc2]
+      | toInternalTimeUnit u => simp only [cmethod, hc, hc2]; split <;> simp [hc, hc2]
+      | wdFilename f =>
+        simp only [cmethod, hc, hc2]
+        split
+        · simp [hc, hc2]
+        · split <;> simp [hc, hc2]
+      | enableTracing => simp [methodScript] at hs
+      | disableTracing => simp [methodScript] at hs
+      | setEnableTracing flag => simp [methodScript] at hs
+      | setNcpu v => simp [methodScript] at hs
+      | setInternalUnits a e l t => simp [methodScript] at hs
+
+/-- a call that does not go through `j` leaves configuration `j` as it was -/
+theorem call_other_keeps (K : Keys) (E : Ext) (w : CWorld) (hw : CInv w) (j : Nat) (hj : j < w.cfgs.length)
+    (c : CCall) (ht : callTarget c ≠ some j) :
+    (ccall cstep K E w c).1.cfgs[j]? = w.cfgs[j]? ∧ j < (ccall cstep K E w c).1.cfgs.length := by
+  rw [(ccall_isolated K E w hw c).1]
+  cases c with
+  | op o =>
+    cases o with
+    | new =>
+      cases hb : w.cfgs[0]? with
+      | none => simp [ccall, cspecStep, cstep, newCfg, hb, hj]
+      | some base => simp [ccall, cspecStep, cstep, newCfg, hb, List.getElem?_append_left hj]; omega
+    | fromDict u =>
+      cases hb : w.cfgs[0]? with
+      | none => simp [ccall, cspecStep, cstep, newCfg, hb, hj]
+      | some base =>
+        cases hu : w.cfgs[u]? with
+        | none => simp [ccall, cspecStep, cstep, newCfg, hb, hu, hj]
+        | some ud => simp [ccall, cspecStep, cstep, newCfg, hb, hu, List.getElem?_append_left hj]; omega
+    | set i path k v =>
+      have hij : i ≠ j := fun e => ht (by simp [callTarget, e])
+      have := spec_op_other w i j hij (.set i path k v) rfl
+      exact ⟨this.1, by rw [show (ccall cspecStep K E w (.op (.set i path k v))) = cspecStep w (.set i path k v) from rfl, this.2]; exact hj⟩
+    | del i path k =>
+      have hij : i ≠ j := fun e => ht (by simp [callTarget, e])
+      have := spec_op_other w i j hij (.del i path k) rfl
+      exact ⟨this.1, by rw [show (ccall cspecStep K E w (.op (.del i path k))) = cspecStep w (.del i path k) from rfl, this.2]; exact hj⟩
+    | get i path k =>
+      have hij : i ≠ j := fun e => ht (by simp [callTarget, e])
+      have := spec_op_other w i j hij (.get i path k) rfl
+      exact ⟨this.1, by rw [show (ccall cspecStep K E w (.op (.get i path k))) = cspecStep w (.get i path k) from rfl, this.2]; exact hj⟩
+  | meth i m =>
+    have hij : i ≠ j := fun e => ht (by simp [callTarget, e])
+    have := spec_method_other K E w i j hij m
+    exact ⟨this.1, by rw [show (ccall cspecStep K E w (.meth i m)) = cmethod cspecStep K E w i m from rfl, this.2]; exact hj⟩
+
+/-- a call through `j` returns, and does to configuration `j`, the same in two worlds that agree on
+configuration `j` -/
+theorem call_same_local (K : Keys) (E : Ext) (w1 w2 : CWorld) (hw1 : CInv w1) (hw2 : CInv w2) (j : Nat)
+    (heq : w1.cfgs[j]? = w2.cfgs[j]?) (c : CCall) (ht : callTarget c = some j) :
+    (ccall cstep K E w1 c).2 = (ccall cstep K E w2 c).2 ∧
+    (ccall cstep K E w1 c).1.cfgs[j]? = (ccall cstep K E w2 c).1.cfgs[j]? := by
+  rw [(ccall_isolated K E w1 hw1 c).1, (ccall_isolated K E w2 hw2 c).1]
+  cases c with
+  | op o => exact spec_op_local w1 w2 j heq o ht
+  | meth i m =>
+    have : i = j := by simpa [callTarget] using ht
+    subst this
+    exact spec_method_local K E w1 w2 i heq m
+
+end C20
+
+/-- **behavioural isolation (non-interference)**: take any sequence of calls on a world of unshared
+configurations — creations, item writes, deletions, reads, every method of `Config` — and any
+existing configuration `j`.  Everything observed through `j` (each return value, each raised error,
+and the final content of `j`) is what it is when only the calls made through `j` are executed:
+nothing done through another instance, no query made elsewhere, no new instance, and no state of
+`sys.path` can change it. -/
+theorem c20_config_noninterference (K : Keys) (E : Ext) (j : Nat) (calls : List CCall) :
+    ∀ w1 w2 : CWorld, C20.CInv w1 → C20.CInv w2 → j < w1.cfgs.length → w1.cfgs[j]? = w2.cfgs[j]? →
+    C20.resultsOn K E j w1 calls =
+      C20.resultsOn K E j w2 (calls.filter (fun c => decide (C20.callTarget c = some j))) ∧
+    (crunCalls cstep K E w1 calls).cfgs[j]? =
+      (crunCalls cstep K E w2 (calls.filter (fun c => decide (C20.callTarget c = some j)))).cfgs[j]? := by
+  induction calls with
+  | nil => intro w1 w2 _ _ _ heq; exact ⟨rfl, heq⟩
+  | cons c cs ih =>
+    intro w1 w2 hw1 hw2 hj heq
+    by_cases ht : C20.callTarget c = some j
+    · have hl := C20.call_same_local K E w1 w2 hw1 hw2 j heq c ht
+      have hw1' := (C20.ccall_isolated K E w1 hw1 c).2
+      have hw2' := (C20.ccall_isolated K E w2 hw2 c).2
+      have hj' : j < (ccall cstep K E w1 c).1.cfgs.length := by
+        cases hc : (ccall cstep K E w1 c).1.cfgs[j]? with
+        | some x => exact (List.getElem?_eq_some_iff.mp hc).1
+        | none =>
+          -- entry j existed before and a call through j never removes it
+          exfalso
+          have h1 : w1.cfgs[j]? = some w1.cfgs[j] := List.getElem?_eq_getElem hj
+          rw [(C20.ccall_isolated K E w1 hw1 c).1] at hc
+          cases c with
+          | op o =>
+            cases o with
+            | new => simp [C20.callTarget] at ht
+            | fromDict u => simp [C20.callTarget] at ht
+            | set j' p k v =>
+              have : j' = j := by simpa [C20.callTarget] using ht
+              subst this
+              simp only [ccall, cspecStep, h1] at hc
+              split at hc <;> simp [h1, hj] at hc
+            | del j' p k =>
+              have : j' = j := by simpa [C20.callTarget] using ht
+              subst this
+              simp only [ccall, cspecStep, h1] at hc
+              split at hc
+              · simp [h1] at hc
+              · split at hc <;> simp [h1, hj] at hc
+            | get j' p k =>
+              have : j' = j := by simpa [C20.callTarget] using ht
+              subst this
+              simp [ccall, cspecStep, cstep, h1] at hc
+          | meth i m =>
+            have : i = j := by simpa [C20.callTarget] using ht
+            subst this
+            have h2 := C20.spec_method_local K E w1 w1 i rfl m
+            -- length is preserved by methods: use the "other" lemma on a different index is not available;
+            -- argue through lengths directly
+            have hlen : (cmethod cspecStep K E w1 i m).1.cfgs.length = w1.cfgs.length := by
+              cases hs : C20.methodScript K E i m with
+              | some sc =>
+                rw [C20.cmethod_script cspecStep K E w1 i m sc hs]
+                exact (C20.runScript_spec_other i (i + 1) (by omega) sc w1
+                  (C20.methodScript_through K E i m sc hs)).2
+              | none => exact (C20.spec_method_other K E w1 i (i + 1) (by omega) m).2
+            have : i < (cmethod cspecStep K E w1 i m).1.cfgs.length := by rw [hlen]; exact hj
+            rw [show (ccall cspecStep K E w1 (.meth i m)) = cmethod cspecStep K E w1 i m from rfl] at hc
+            rw [List.getElem?_eq_getElem this] at hc
+            cases hc
+      obtain ⟨ih1, ih2⟩ := ih _ _ hw1' hw2' hj' hl.2
+      simp only [List.filter_cons, ht, decide_true, if_true, C20.resultsOn, crunCalls]
+      exact ⟨by rw [hl.1, ih1], ih2⟩
+    · have hk := C20.call_other_keeps K E w1 hw1 j hj c ht
+      have hw1' := (C20.ccall_isolated K E w1 hw1 c).2
+      obtain ⟨ih1, ih2⟩ := ih _ w2 hw1' hw2 hk.2 (hk.1.trans heq)
+      simp only [List.filter_cons, ht, decide_false, if_false, C20.resultsOn, crunCalls, Bool.false_eq_true]
+      exact ⟨ih1, ih2⟩
